@@ -304,11 +304,14 @@ class Exec:
             if isinstance(node, ast.Lambda):
                 return self.eval(node.body, fr)
             fr.local_names |= assigned_names(node)
+            is_gen = any(isinstance(n, (ast.Yield, ast.YieldFrom)) for n in _own_nodes(node))
+            if is_gen:
+                fr.yielded = []
             try:
                 self.exec_block(node.body, fr)
             except _Return as r:
-                return r.v
-            return None
+                return SeqIter(fr.yielded, 0) if is_gen else r.v
+            return SeqIter(fr.yielded, 0) if is_gen else None
         if isinstance(f, ClassRef):
             return self.instantiate(f.qual, list(args), kwargs)
         if isinstance(f, ExcClass):
@@ -337,6 +340,10 @@ class Exec:
         fn = METHODS.get((tag, name))
         if fn is None and isinstance(obj, Record):
             fn = METHODS.get((f"Record:{obj.cls}", name))
+        if fn is None and isinstance(obj, Vec) and obj.kind == "array" and ("NDArray", name) in METHODS:
+            # a numpy vector: the array methods apply to it as to any array
+            from .ops import as_ndarray
+            return METHODS[("NDArray", name)](self, as_ndarray(obj), list(args), kwargs)
         if fn is None:
             raise Unsupported(f"method {tag}.{name}")
         return fn(self, obj, list(args), kwargs)
@@ -973,12 +980,13 @@ class Exec:
 
 def _own_nodes(fdef):
     """nodes of a function body without those of nested function / class definitions"""
-    stack = list(fdef.body)
+    nested = (ast.FunctionDef, ast.AsyncFunctionDef, ast.ClassDef, ast.Lambda)
+    stack = [n for n in fdef.body if not isinstance(n, nested)]
     while stack:
         n = stack.pop()
         yield n
         for c in ast.iter_child_nodes(n):
-            if not isinstance(c, (ast.FunctionDef, ast.AsyncFunctionDef, ast.ClassDef, ast.Lambda)):
+            if not isinstance(c, nested):
                 stack.append(c)
 
 
